@@ -10,7 +10,7 @@ def main(tier):
     seed = vcheck.seed()
     common.model_step(chk, "C14", tier)
     sp = common.transfer_specs(tier, seed + 14)
-    results = common.run_specs(sp, ["C14", "TSRV"])
+    results = common.run_specs(sp, ["C14", "TSRV", "TCLI"])
     common.judge(chk, results, "TraceMonAnswers", "TraceMonAnswers.cfg", "answers", key="C14")
     common.bind_tunnel(chk, results)
     chk.cov["evaluations"] = sum(r["stats"].get("answers", 0) for r in results)
